@@ -43,7 +43,7 @@ def run_workflow(circuit: Any, workflow: Any, data: dict | None = None) -> Any:
         task.data.update(data)
     return run_task(task)
 
-QUICK_BUDGET = 75.0
+QUICK_BUDGET = 120.0
 # exact passes: besides the HS cost (1e-9) every matrix entry must agree up
 # to one global phase.  Measured on the unchanged tree: < 1e-12 everywhere.
 EXACT_ENTRY = 1e-7
